@@ -8,6 +8,7 @@ CONSTANTS
  StoreKind = "batch"
  Cap = 2
  Strategy = "joint"
+ NOver = 0
  ModelKind = "multi"
  CommitEarly = FALSE
  MaxCalls = 4
